@@ -297,7 +297,7 @@ class LasReader:
             else:
                 return UncompressedPointReader(source, self.header)
         else:
-            return EmptyPointReader()
+            return EmptyPointReader(source)
 
     def __enter__(self):
         return self
@@ -360,15 +360,19 @@ class EmptyPointReader(IPointReader):
     Used to make sure we handle empty LAS files in a robust way.
     """
 
+    def __init__(self, source=None) -> None:
+        self._source = source
+
     @property
     def source(self):
-        pass
+        return self._source
 
     def read_n_points(self, n: int) -> bytearray:
         return bytearray()
 
     def close(self) -> None:
-        pass
+        if self._source is not None:
+            self._source.close()
 
     def seek(self, point_index: int) -> None:
         pass
